@@ -16,8 +16,12 @@ def run(ctx):
     import props.C09 as c09
     facts = c09.shape(ctx)
     if facts:
-        need = [("close", k) for k in ("rp_cconn", "rp_wdone", "wr_wdone", "wp_sock", "wp_cc_sock")] + \
-               [("stop", k) for k in ("srp_cconn", "swp_err_sock", "swp_cc_sock", "start_sock")] + \
-               [("struct", k) for k in ("after_pump_releases", "wg_add_before_go")]
+        # C14_client_pumps_do_not_accumulate / C14_ended_server_session_keeps_nothing are theorems about cfg = good of both models:
+        # every fact of both configurations is re-read from the sources
+        import props.C10 as c10
+        facts["stop"]["hs_close"] = facts["struct"].get("hs_closes_conn", False)
+        facts["stop"]["cb_release"] = facts["struct"].get("after_pump_releases", False)
+        need = [("close", k) for k in c09.CFG_ORDER] + [("stop", k) for k in c10.CFG_ORDER] + \
+               [("struct", k) for k in ("after_pump_releases", "wg_add_before_go", "hs_closes_conn", "rt_unlock_before_close")]
         missing = ["%s.%s" % (a, k) for a, k in need if not facts.get(a, {}).get(k)]
         ctx.oblige(not missing, "C14_pump_exits", "(every pump and reader of a session has a way out when the session ends: %s no longer found in the sources)" % ", ".join(missing))
